@@ -59,7 +59,16 @@ type c17Emb struct {
 	Edits []c17DocEdit   `json:"edits"`
 	More  [][]c17DocEdit `json:"more,omitempty"` // later rounds (edits, Save, reopen-compare) through the SAME Document handle
 	By    *c17Party      `json:"by,omitempty"`   // another manifest alive during the whole history, written + reloaded after every Save
+	// After (Via builder / create): what the caller does with the Builder VALUE once it has handed out the Document and
+	// before the first edit - a Builder configured once is used for the next manifest: manifest-other (Manifest(other file)),
+	// open-other (Manifest(other file).Open(), that document stays alive), create-other (Manifest(new file).Create(...)),
+	// encoder-other / decoder-other (Encoder / Decoder set for another item), in any combination.  The Document handed out
+	// earlier edits and saves ITS manifest with ITS codec: all clauses of the history hold as usual, and the other file
+	// keeps its bytes.
+	After []string `json:"after,omitempty"`
 }
+
+var c17AfterSteps = []string{"manifest-other", "open-other", "open-other", "create-other", "encoder-other", "decoder-other"}
 
 // c17Party: one of several manifests alive at the same time.
 type c17Party struct {
@@ -99,7 +108,7 @@ type c17B64 struct {
 
 func init() {
 	register(&Prop{ID: "C17", Run: c17Run,
-		Rule: "manifest: Secret/ConfigMap with generated metadata/extra fields (incl. the other kind's section names), 0-5 text items (strings: multi-line, unicode, numeric-looking, YAML-special; and non-string scalars) and 0-4 binary items (0-40 arbitrary bytes, incl. empty), serialised with yaml.v3, loaded through ManifestFromBytes/Reader/File, written, reloaded, then 0-8 Update/Remove edits on both facades, written and reloaded again. embedded: a YAML/JSON document embedded in an item (or absent), or properties spread over the string items, opened through k8s.YamlDoc/JsonDoc/Properties or NewBuilder()...Open()/Create() on a temp file, then 1-4 rounds of (0-6 edits, Save through the SAME Document handle, reopen and compare), in a third of the cases with a second manifest of either kind alive that is written and reloaded after every Save. Edits: AddValueAt / RemoveAt on the root builder, and (4 in 9, never by the same route twice in a row) calls through NESTED HANDLES the history holds - AddValue / Remove / AddContainer+AddValue / AddList+Append / AddValue of a leaf object the container already holds (one instance at two positions) on a nested container, Append / Set / MustSet(in range) / Clear on a nested list, the handle obtained by Lookup, by a chain of Child calls, or retained since the document was opened / an earlier round / returned by AddContainer or AddList (used only while Lookup still finds that very node there). Before and after every edit and around every Save the document is read through every read API (walk of Children/Items/Value, Flatten twice, Lookup of every flattened and composite path, Search for every leaf value, AsMap, Serialize as YAML and JSON, Clone, Equals, a sealed view taken at the start, every held handle's own walk / Flatten / AsMap / Items / Size / AsSlice): all must agree with the walk, with a freshly built document of the same content, with a plain-tree edit of the previous content (nested edits), and the maps returned by an earlier Flatten / AsMap must not change; what a properties Save must persist is the flattening of the WALKED document. savefault: the embedded histories again, with at least one round whose Save fails in the embedded-document encoder (a +Inf/-Inf/NaN float leaf put into a JsonDoc document; a user-supplied encoder given to NewBuilder().Encoder(...) that returns an error before or after doing the standard encoder's work), attempted 1-3 times: after every failed Save the file is read back and must still be the previous manifest (loads, same item maps, same fields outside the data sections, embedded document reopens as last saved); the cause is then repaired and the same handle saves, with the usual clauses. interleave: 2-3 manifests of either kind alive at once, a random schedule of load / Update / Remove / write(+reload) steps over them, every write compared with that manifest's own expected items, sections and non-data fields, every step followed by a look at the items of all alive manifests. entry (direct predicates only): one manifest body of an exact size - natural, or just under / at / just over / well over 512 B, 4 KiB, 64 KiB, 1 MiB, the bulk being one long text item, many text items, one long binary item or a long field outside the data sections, optionally multi-byte UTF-8 with a character across the threshold offset - loaded through ManifestFromBytes, ManifestFromFile and ManifestFromReader (reader handing the bytes out whole / in chunks of 1 B ... 1 MiB / one by one / last chunk together with io.EOF, preceded by 0-2 readers failing after 0 ... n-1 bytes that must yield an error and no manifest): the three show the generated items and the same items, WriteTo (on the reader-loaded one preceded by 0-2 writers failing part-way, which must be reported) gives byte-identical bodies that reload through the reader entry point with the same items and the same non-data fields, also after 0-3 facade edits. WRITTEN FORM (c17_form.go): a third of the manifest cases are not yaml.Marshal output but written the way people and tools write manifests, rendered by yaml.v3's emitter from a styled node tree: base64 text of a binary item on one line, ended by a line break (block scalar `|` with the default chomping), wrapped at 64 / 76 (PEM / MIME / `base64 -w`) or 1-20 columns with LF or CRLF breaks, with or without the final line break, with a line break in front, as literal / folded block or single- / double-quoted scalar; string text items as literal / folded / quoted scalars; quoted item keys; sections as flow mappings; comments; CRLF line ends of the file - item lengths include 47-50, 56-59, 100, 101 bytes so that 64 / 76-column wrapping occurs with every length mod 3. One manifest case in three takes its item keys from a wide pool (letter-case twins, white space, Unicode composition twins, supplementary-plane characters, U+FFFD, YAML indicators, number / boolean / null spellings and long digit strings as STRING keys, the empty key). String values include white-space-only / CRLF / NBSP strings, supplementary-plane characters, U+FFFD, digit strings at 2^53 / 2^63 / 2^64, signed zeros, YAML 1.1 / 1.2 number and boolean spellings and YAML indicators (all pre-filtered by a yaml.v3 round trip). malformed: YAML assembled from pools of bad kinds / sections / values. b64: random bytes and mutated encodings against encoding/base64. A manifest case is non-trivial when it has at least one item; an embedded case when it has at least one edit; a savefault case when at least one Save failed; an entry case when it has at least one item; an interleave case when two manifests with at least one item between them are alive at a write; distinct = distinct canonical case JSON.",
+		Rule: "manifest: Secret/ConfigMap with generated metadata/extra fields (incl. the other kind's section names), 0-5 text items (strings: multi-line, unicode, numeric-looking, YAML-special; and non-string scalars) and 0-4 binary items (0-40 arbitrary bytes, incl. empty), serialised with yaml.v3, loaded through ManifestFromBytes/Reader/File, written, reloaded, then 0-8 Update/Remove edits on both facades, written and reloaded again. embedded: a YAML/JSON document embedded in an item (or absent), or properties spread over the string items, opened through k8s.YamlDoc/JsonDoc/Properties or NewBuilder()...Open()/Create() on a temp file, then 1-4 rounds of (0-6 edits, Save through the SAME Document handle, reopen and compare), in a third of the cases with a second manifest of either kind alive that is written and reloaded after every Save. Edits: AddValueAt / RemoveAt on the root builder, and (4 in 9, never by the same route twice in a row) calls through NESTED HANDLES the history holds - AddValue / Remove / AddContainer+AddValue / AddList+Append / AddValue of a leaf object the container already holds (one instance at two positions) on a nested container, Append / Set / MustSet(in range) / Clear on a nested list, the handle obtained by Lookup, by a chain of Child calls, or retained since the document was opened / an earlier round / returned by AddContainer or AddList (used only while Lookup still finds that very node there). Before and after every edit and around every Save the document is read through every read API (walk of Children/Items/Value, Flatten twice, Lookup of every flattened and composite path, Search for every leaf value, AsMap, Serialize as YAML and JSON, Clone, Equals, a sealed view taken at the start, every held handle's own walk / Flatten / AsMap / Items / Size / AsSlice): all must agree with the walk, with a freshly built document of the same content, with a plain-tree edit of the previous content (nested edits), and the maps returned by an earlier Flatten / AsMap must not change; what a properties Save must persist is the flattening of the WALKED document. savefault: the embedded histories again, with at least one round whose Save fails in the embedded-document encoder (a +Inf/-Inf/NaN float leaf put into a JsonDoc document; a user-supplied encoder given to NewBuilder().Encoder(...) that returns an error before or after doing the standard encoder's work), attempted 1-3 times: after every failed Save the file is read back and must still be the previous manifest (loads, same item maps, same fields outside the data sections, embedded document reopens as last saved); the cause is then repaired and the same handle saves, with the usual clauses. interleave: 2-3 manifests of either kind alive at once, a random schedule of load / Update / Remove / write(+reload) steps over them, every write compared with that manifest's own expected items, sections and non-data fields, every step followed by a look at the items of all alive manifests. entry (direct predicates only): one manifest body of an exact size - natural, or just under / at / just over / well over 512 B, 4 KiB, 64 KiB, 1 MiB, the bulk being one long text item, many text items, one long binary item or a long field outside the data sections, optionally multi-byte UTF-8 with a character across the threshold offset - loaded through ManifestFromBytes, ManifestFromFile and ManifestFromReader (reader handing the bytes out whole / in chunks of 1 B ... 1 MiB / one by one / last chunk together with io.EOF, preceded by 0-2 readers failing after 0 ... n-1 bytes that must yield an error and no manifest): the three show the generated items and the same items, WriteTo (on the reader-loaded one preceded by 0-2 writers failing part-way, which must be reported) gives byte-identical bodies that reload through the reader entry point with the same items and the same non-data fields, also after 0-3 facade edits. WRITTEN FORM (c17_form.go): a third of the manifest cases are not yaml.Marshal output but written the way people and tools write manifests, rendered by yaml.v3's emitter from a styled node tree: base64 text of a binary item on one line, ended by a line break (block scalar `|` with the default chomping), wrapped at 64 / 76 (PEM / MIME / `base64 -w`) or 1-20 columns with LF or CRLF breaks, with or without the final line break, with a line break in front, as literal / folded block or single- / double-quoted scalar; string text items as literal / folded / quoted scalars; quoted item keys; sections as flow mappings; comments; CRLF line ends of the file - item lengths include 47-50, 56-59, 100, 101 bytes so that 64 / 76-column wrapping occurs with every length mod 3. One manifest case in three takes its item keys from a wide pool (letter-case twins, white space, Unicode composition twins, supplementary-plane characters, U+FFFD, YAML indicators, number / boolean / null spellings and long digit strings as STRING keys, the empty key). String values include white-space-only / CRLF / NBSP strings, supplementary-plane characters, U+FFFD, digit strings at 2^53 / 2^63 / 2^64, signed zeros, YAML 1.1 / 1.2 number and boolean spellings and YAML indicators (all pre-filtered by a yaml.v3 round trip). MANIFEST VOCABULARY IN THE DATA (round 8): the string pool of text items and facade updates includes texts that are themselves manifests or written in the manifest vocabulary (kind / apiVersion / metadata / data / stringData / binaryData lines as YAML - indented, quoted, commented, behind a document marker -, JSON and properties, kinds other than Secret / ConfigMap, the bare words Pod / Secret / ConfigMap), the item-key pool includes `kind` and `data`, and one embedded document in four takes its keys from kind / metadata / data / apiVersion / a / b. BUILDER REUSE (embedded cases opened through NewBuilder()...Open() / Create(), two in three of them): after the Document was handed out and before its first edit, the same Builder value is used for the next manifest - Manifest(other file), Manifest(other file).Open() (that document stays alive), Manifest(new file).Create(...), Encoder(...) / Decoder(...) for another item and format, one or two of these - and the history of edits / Saves / reopens through the first Document is judged by the usual clauses, plus: the other manifest file keeps its bytes. malformed: YAML assembled from pools of bad kinds / sections / values. b64: random bytes and mutated encodings against encoding/base64. A manifest case is non-trivial when it has at least one item; an embedded case when it has at least one edit; a savefault case when at least one Save failed; an entry case when it has at least one item; an interleave case when two manifests with at least one item between them are alive at a write; distinct = distinct canonical case JSON.",
 		Assumptions: []string{
 			"yaml.v3 round-trips the generated manifest bodies (strings are pre-filtered by an independent Marshal/Unmarshal round trip; no timestamps, no NaN)",
 			"embedded YAML documents hold int/string/bool/null scalars, embedded JSON documents string/bool/float64/null scalars (the codecs' number normalisation is C01's concern); keys are path-safe",
@@ -130,7 +139,7 @@ func c17Shrink(kind string, raw []byte) [][]byte {
 	return append(out, shrinkJSON(kind, raw)...)
 }
 
-var c17Keys = []string{"a", "b", "key-1", "K_2", "app.properties", "x.yaml", "cfg.json", "z"}
+var c17Keys = []string{"a", "b", "key-1", "K_2", "app.properties", "x.yaml", "cfg.json", "z", "kind", "data"}
 var c17PropKeys = []string{"a", "a.b", "a.k", "c", "d.e.f", "l[0]", "l[1]", "srv.port", "srv.host", "x"}
 
 var c17StringPool = []string{"", "s", "plain text", "line1\nline2\n", "line1\nline2", "\nlead", "trail \n", "héllo ✓ 日本語",
@@ -142,7 +151,14 @@ var c17StringPool = []string{"", "s", "plain text", "line1\nline2\n", "line1\nli
 	"9007199254740993", "9223372036854775807", "9223372036854775808", "18446744073709551615", "18446744073709551616",
 	"123456789012345678901234", "-0", "-0.0", "+1", ".5", "5.", "0o17", "017", "0b1", "1_000", ".inf", "-.Inf", ".NaN", "1:30",
 	"True", "TRUE", "False", "y", "Y", "n", "on", "Off", "t", "T", "f", "F", "0", "1", "Null", "NULL", "nil",
-	"=", "<<", "---", "...", "--- x", "!!str x", "&a x", "*a", "? k", "@at", "`bt", "%TAG", "a #b", "a: ", "- ", "k:\tv", "\\n", "\\"}
+	"=", "<<", "---", "...", "--- x", "!!str x", "&a x", "*a", "? k", "@at", "`bt", "%TAG", "a #b", "a: ", "- ", "k:\tv", "\\n", "\\",
+	// round 8: a text item is very often itself a document - and among the documents people keep in ConfigMaps and Secrets
+	// are MANIFESTS (of any kind) and texts written in the manifest vocabulary (kind / apiVersion / metadata / data /
+	// stringData / binaryData lines, as YAML, JSON or properties, indented or not, with or without a document marker)
+	"apiVersion: v1\nkind: Pod\nmetadata:\n  name: p\n", "kind: Deployment\n", "kind: List\nitems: []\n", "kind: Secret\ndata: {}\n",
+	"kind: ConfigMap\ndata:\n  a: b\n", "  kind: Service\n  spec: {}\n", "---\nkind: Job\n", "apiVersion: apps/v1\nkind: StatefulSet # x\nspec:\n  replicas: 1\n",
+	"kind: 1\n", "kind:\n", "kind: \"Role\"\n", "data:\n  kind: x\nstringData:\n  a: b\n", "binaryData:\n  k: YQ==\n", "x: 1\nkind: v1.Node\nmetadata: {}",
+	"{\"kind\": \"Pod\", \"data\": {}}", "kind=Pod\ndata.a=1\n", "Pod", "Secret", "ConfigMap"}
 
 func c17YamlStable(s string) bool {
 	b, err := yaml.Marshal(map[string]any{"k": s})
@@ -353,6 +369,10 @@ func c17GenEmb(r *rand.Rand) c17Emb {
 	g.PNull = 0.05
 	g.Keys = []string{"a", "b", "c", "k1", "x-y", "z_9"}
 	g.Strings = []string{"", "s", "t", "1", "true", "a b", "héllo", "multi\nline\n", "x.y", "k: v"}
+	if r.Intn(4) == 0 { // the embedded document is (shaped like) a manifest itself
+		g.Keys = []string{"kind", "metadata", "data", "a", "apiVersion", "b"}
+		g.Strings = append(g.Strings, "Pod", "v1", "Secret")
+	}
 	switch mode {
 	case "yaml":
 		g.Types = []string{"int", "string", "bool"}
@@ -388,6 +408,11 @@ func c17GenEmb(r *rand.Rand) c17Emb {
 		cs.Extra, cs.Text, cs.Bin, cs.Doc = map[string]any{"m": map[string]any{}}, []c17Item{}, []c17Bin{}, nil
 	case 1:
 		cs.Via = "builder"
+	}
+	if cs.Via != "open" && r.Intn(3) > 0 {
+		for n := 1 + r.Intn(2); n > 0; n-- {
+			cs.After = append(cs.After, pick(r, c17AfterSteps))
+		}
 	}
 	// edits aimed at the current shape of the document
 	var cur W = cs.Doc
@@ -1292,8 +1317,9 @@ func c17EvalEmbedded(c *Ctx, raw []byte) {
 	}
 	var d k8s.Document
 	var err error
+	var b k8s.Builder
 	out, txt := guard(func() {
-		b := k8s.NewBuilder().Manifest(file)
+		b = k8s.NewBuilder().Manifest(file)
 		switch cs.Mode {
 		case "yaml":
 			b = b.Decoder(k8s.DecodeEmbeddedDoc(cs.Item, dom.DefaultYamlDecoder)).Encoder(k8s.EncodeEmbeddedDoc(cs.Item, dom.DefaultYamlEncoder))
@@ -1325,6 +1351,49 @@ func c17EvalEmbedded(c *Ctx, raw []byte) {
 	}
 	if !c.Direct("in-domain-manifest-opens", err == nil && d != nil, fmt.Sprint(err)) {
 		return
+	}
+	// ---- the Builder value is used for the next manifest; the Document handed out above is on its own
+	otherFile := filepath.Join(dir, "other.yaml")
+	var otherBody []byte
+	var heldOther []k8s.Document
+	if len(cs.After) > 0 && (cs.Via == "builder" || cs.Via == "create") {
+		otherRoot := map[string]any{"kind": "ConfigMap", "metadata": map[string]any{"name": "other"}, "data": map[string]any{"o": "x: 1\n", "p": "q"}}
+		if cs.By != nil && (cs.By.Kind == "Secret" || cs.By.Kind == "ConfigMap") {
+			otherRoot = c17Root(cs.By.Kind, cs.By.Extra, cs.By.Text, cs.By.Bin, false)
+		}
+		var merr error
+		if otherBody, merr = yaml.Marshal(otherRoot); merr != nil {
+			panic(merr)
+		}
+		if werr := os.WriteFile(otherFile, otherBody, 0o644); werr != nil {
+			panic(werr)
+		}
+		out, txt = guard(func() {
+			for _, st := range cs.After {
+				c.Dist("builder-reused-after-open:" + st)
+				switch st {
+				case "manifest-other":
+					b.Manifest(otherFile)
+				case "open-other": // (whether the other manifest opens with this codec is its own matter)
+					if d2, e2 := b.Manifest(otherFile).Open(); e2 == nil && d2 != nil {
+						heldOther = append(heldOther, d2)
+					}
+				case "create-other":
+					nf := filepath.Join(dir, "created.yaml")
+					_ = os.Remove(nf)
+					if d2, e2 := b.Manifest(nf).Create("ConfigMap", "o2"); e2 == nil && d2 != nil {
+						heldOther = append(heldOther, d2)
+					}
+				case "encoder-other":
+					b.Encoder(k8s.EncodeEmbeddedDoc("zz-other-item", dom.DefaultJsonEncoder))
+				case "decoder-other":
+					b.Decoder(k8s.DecodeEmbeddedDoc("zz-other-item", dom.DefaultJsonDecoder))
+				}
+			}
+		})
+		if !c.Direct("no-panic(open)", out == "ok", map[string]any{"builder-reused": cs.After, "panic": txt}) {
+			return
+		}
 	}
 	body0, rerr := os.ReadFile(file)
 	if rerr != nil {
@@ -1456,6 +1525,11 @@ func c17EvalEmbedded(c *Ctx, raw []byte) {
 		re["doc"] = doc2
 		implRounds = append(implRounds, map[string]any{"edited": editedW, "save": "ok", "file": file2, "reopen": re})
 		prev = after
+		if otherBody != nil {
+			ob, _ := os.ReadFile(otherFile)
+			c.Direct("other-manifest-file-untouched-by-Save", bytes.Equal(ob, otherBody), map[string]any{"at": at, "builder-reused": cs.After,
+				"other-file-before": string(otherBody), "other-file-now": string(ob)})
+		}
 		// the other manifest is untouched by all this, and what it writes is its own
 		if by != nil && !by.dead {
 			by.write(c, at)
